@@ -272,6 +272,19 @@ fn finish(ctx: &Ctx, prop: &props::Prop, seed: i64) -> i32 {
     if !unlisted_groups.is_empty() && exit == 0 {
         exit = 1;
     }
+    let machinery = ctx.machinery.lock().unwrap().clone();
+    if !machinery.is_empty() {
+        if exit == 1 {
+            for m in &machinery {
+                println!("NOTE: machinery problem in this run (does not affect the violations above, which were confirmed by replay): {}", m);
+            }
+        } else {
+            for m in &machinery {
+                eprintln!("MACHINERY ERROR: {}", m);
+            }
+            exit = 2;
+        }
+    }
     if unlisted_groups.is_empty() && unreproduced > 0 && exit == 0 {
         // nothing confirmed, but something failed once and never again: not a verdict
         eprintln!("MACHINERY ERROR: {} violation group(s) could not be reproduced on replay and no other violation was confirmed", unreproduced);
